@@ -31,6 +31,7 @@ RULE = (
 ASSUMPTIONS = [
     "a truncated data section yields whole frames only (a partial trailing frame is not a sample 'actually present')",
     "a requested wider dtype is a cast of the decoded 16-bit values (the dtype rule of C11)",
+    "the bytes between 'end_head' and the end of the header block belong to no field: a well-formed file may hold anything there (blanks, NULs, non-UTF-8 bytes)",
 ]
 ANCHOR_FILES = ("src/pydrobert/speech/_sphere.py", "src/pydrobert/speech/util.py")
 EXHAUSTIVE_PARTS = ["all 256 mu-law codes and all 256 A-law codes, through 1- and 2-channel files, expanded and raw"]
